@@ -1,5 +1,5 @@
 """C19 — inspection tools report what is actually in the file."""
-from engine.h4v import H, REPO
+from engine.h4v import H, REPO, libhdf_units, libmfhdf_units
 
 TYPES = [("INT8", 20, 1), ("UINT8", 21, 1), ("CHAR8", 4, 1), ("INT16", 22, 2), ("UINT16", 23, 2), ("INT32", 24, 4), ("UINT32", 25, 4), ("FLOAT32", 5, 4), ("FLOAT64", 6, 8)]
 
@@ -22,4 +22,10 @@ def plan(ctx, tier, seed):
         hs.append(H("C19.K1.arraydiff." + tn, "C19", src="harness/C19/k1_arraydiff.c", units=["mfhdf/hdiff/hdiff_array.c"], models=["herr", "memloops"],
                     defs={"TYPE": code, "SZ": sz, "N": 2}, unwind=20, kind="K", timeout=900, mf=True, field_sens=64,
                     extra_cc=["-I" + REPO + "/mfhdf/hdiff"], symbolic="2x2 elements, all bit patterns", bound="2 elements per buffer", group="C19.K1"))
+    hd = ["mfhdf/hdiff/hdiff_vs.c", "mfhdf/hdiff/hdiff_table.c", "mfhdf/hdiff/hdiff_misc.c", "mfhdf/hdiff/hdiff_array.c", "mfhdf/hdiff/hdiff_dim.c",
+          "mfhdf/hdiff/hdiff_mattbl.c", "mfhdf/hdiff/hdiff_sds.c", "mfhdf/hdiff/hdiff_gr.c", "mfhdf/hdiff/hdiff_gattr.c"]
+    for nmem in (1, 2):
+        hs.append(H("C19.S2.hdiffvs.n%d" % nmem, "C19", src="harness/C19/s2_hdiff_vs.c", units=libhdf_units() + libmfhdf_units() + hd, models=["memio", "herr", "memloops", "printf"],
+                    defs={"NMEM": nmem, "MEMIO_DISK_SZ": 4096}, unwind=5000, kind="S", timeout=1500, mf=True, extra_cc=["-I" + REPO + "/mfhdf/hdiff"],
+                    symbolic="record bytes of both files", bound="top-level vgroup with %d Vdata member(s) + one lone Vdata, 2 records each" % nmem, group="C19.S2", hang_is_violation=True))
     return hs
